@@ -205,6 +205,20 @@ func syntaxField(f *types.Var, node *types.Interface) bool {
 }
 
 func checkPrintedFields(c *core.Check, prog *core.Prog, ppk, xpk *packages.Package, node *types.Interface, nt *types.Named, cc *ast.CaseClause, caseVar types.Object) {
+	checkFieldsRead(c, ppk, xpk, node, nt, cc, caseVar, fieldReadRule{prefix: "print", verb: "prints", omitted: c19Omitted, derived: c19Derived})
+}
+
+// fieldReadRule names one consumer of the tree (the printer, the compiler) for checkFieldsRead.
+type fieldReadRule struct {
+	prefix  string // obligation prefix: <prefix>-field, <prefix>-omitted, …
+	verb    string // "prints", "lowers"
+	omitted map[string]string
+	derived map[string]string
+}
+
+// checkFieldsRead: every syntax-bearing field of nt that the parser sets is read by the code that consumes the node
+// (the case body, or a routine of the consumer package that receives the node, up to three calls deep).
+func checkFieldsRead(c *core.Check, ppk, xpk *packages.Package, node *types.Interface, nt *types.Named, cc ast.Node, caseVar types.Object, r fieldReadRule) {
 	st, ok := nt.Underlying().(*types.Struct)
 	if !ok || caseVar == nil {
 		return
@@ -267,16 +281,16 @@ func checkPrintedFields(c *core.Check, prog *core.Prog, ppk, xpk *packages.Packa
 			continue
 		}
 		key := nt.Obj().Name() + "." + f.Name()
-		if why, om := c19Omitted[f.Name()]; om {
+		if why, om := r.omitted[f.Name()]; om {
 			if !read[f] {
-				c.Note("print-omitted", key, cc.Pos(), why)
+				c.Note(r.prefix+"-omitted", key, cc.Pos(), why)
 				continue
 			}
 		}
 		sites := fieldStores([]*packages.Package{xpk}, f)
 		if len(sites) == 0 {
 			if !read[f] {
-				c.Note("print-unset", key, cc.Pos(), "the parser never sets this field; the printer does not read it")
+				c.Note(r.prefix+"-unset", key, cc.Pos(), "the parser never sets this field; the code that "+r.verb+" it does not read it")
 			}
 			continue
 		}
@@ -290,22 +304,22 @@ func checkPrintedFields(c *core.Check, prog *core.Prog, ppk, xpk *packages.Packa
 					}
 				}
 			}
-			c.Decide(anyRead, "print-field", key, cc.Pos(), "", "the embedded node is never read by the code that prints "+nt.Obj().Name())
+			c.Decide(anyRead, r.prefix+"-field", key, cc.Pos(), "", "the embedded node is never read by the code that "+r.verb+" "+nt.Obj().Name())
 			continue
 		}
-		if why, ok := c19Derived[key]; ok && !read[f] {
-			c.Note("print-derived", key, cc.Pos(), why)
+		if why, ok := r.derived[key]; ok && !read[f] {
+			c.Note(r.prefix+"-derived", key, cc.Pos(), why)
 			continue
 		}
 		if !read[f] && readAnywhere(ppk, f) {
-			c.Ok("print-field", key, cc.Pos(), "read by the printer outside the node's own case (e.g. by the code that prints its parent)")
+			c.Ok(r.prefix+"-field", key, cc.Pos(), "read outside the node's own case (e.g. by the code that "+r.verb+" its parent)")
 			continue
 		}
 		if read[f] && !used[f] && isTokenField(f) {
-			c.Bad("print-field", key, cc.Pos(), "the code that prints *ast."+nt.Obj().Name()+" only compares "+key+" (==, !=, !) and never prints it or switches over it: the token the parser stored is replaced by whatever constant the printer emits")
+			c.Bad(r.prefix+"-field", key, cc.Pos(), "the code that "+r.verb+" *ast."+nt.Obj().Name()+" only compares "+key+" (==, !=, !) and never prints it or switches over it: the token the parser stored is replaced by whatever constant the printer emits")
 			continue
 		}
-		c.Decide(read[f], "print-field", key, cc.Pos(), "", "the parser sets "+key+" ("+core.Sprintf("%d", len(sites))+" site(s)) but the code that prints *ast."+nt.Obj().Name()+" never reads it: whatever the field encodes is lost (or replaced by a constant) when the file is formatted")
+		c.Decide(read[f], r.prefix+"-field", key, cc.Pos(), "", "the parser sets "+key+" ("+core.Sprintf("%d", len(sites))+" site(s)) but the code that "+r.verb+" *ast."+nt.Obj().Name()+" never reads it: whatever the field encodes is lost (or replaced by a constant) when the file is formatted")
 	}
 }
 
